@@ -1,6 +1,8 @@
 package main
 
 import (
+	"strconv"
+	"strings"
 	"encoding/json"
 	"flag"
 	"fmt"
@@ -46,7 +48,20 @@ func explore(args []string) {
 	workers := fs.Int("workers", 16, "workers")
 	maxPaths := fs.Int64("maxpaths", 0, "max paths")
 	steps := fs.Int("steps", 0, "max steps")
+	fixed := fs.String("fix", "", "name=v,name=v pins NdIntRange selectors")
+	params := fs.String("params", "", "name=v,... harness params")
+	full := fs.Bool("full", false, "print full result")
 	fs.Parse(args)
+	parseKV := func(s string) map[string]int {
+		m := map[string]int{}
+		for _, kv := range strings.Split(s, ",") {
+			if i := strings.Index(kv, "="); i > 0 {
+				v, _ := strconv.Atoi(kv[i+1:])
+				m[kv[:i]] = v
+			}
+		}
+		return m
+	}
 	t0 := time.Now()
 	P, err := gosym.Load("/repo", []string{"/verif/harness"}, []string{"./homescript/..."})
 	if err != nil {
@@ -57,7 +72,19 @@ func explore(args []string) {
 	gosym.RegisterAPI(P.Module + "/homescript/errors")
 	cfg := &gosym.HarnessCfg{Pkg: P.Module + "/" + *pkg, Func: *fn, Workers: *workers, MaxPaths: *maxPaths}
 	cfg.Opts.MaxSteps = *steps
+	cfg.Fixed = parseKV(*fixed)
+	cfg.Params = parseKV(*params)
 	res := gosym.Explore(P, cfg)
-	b, _ := json.MarshalIndent(res, "", " ")
-	fmt.Println(string(b))
+	if *full {
+		b, _ := json.MarshalIndent(res, "", " ")
+		fmt.Println(string(b))
+		return
+	}
+	fmt.Printf("paths=%d outcomes=%v wall=%.1fs queries=%d exhausted=%v\nreached=%v\n", res.Paths, res.ByOutcome, res.WallS, res.Stats.Queries, res.Exhausted, res.Reached)
+	for m, n := range res.InconclusiveMsgs {
+		fmt.Printf("inconclusive x%d: %s\n", n, m)
+	}
+	for k, v := range res.Violations {
+		fmt.Printf("VIOL %s x%d vals=%v msg=%s\n", k, v.Count, v.Vals, v.Msg)
+	}
 }
